@@ -3,13 +3,16 @@ condition changes; a write / shutdown on an idle connection is transmitted at on
 import os, sys
 sys.path.insert(0, os.path.dirname(os.path.dirname(os.path.abspath(__file__))))
 import checklib as L
-from . import common, vsock_common, vsockgen, c10
+from . import common, vsock_common, vsockgen, c10, concgen
 
 TRUSTED_BASE = common.BASE_TRUSTED + [common.NO_AXIOMS]
 ASSUMPTIONS = [
     "wakers are modelled as registered-flags plus wake events; the harness uses counting wakers (one per task: "
     "dispatcher, reader, writer) and reports which of them fired during each event",
-    "each method of UserRx / UserTx / the stream halves is atomic (it holds the lock for its whole body)",
+    "each method of UserRx / UserTx / the stream halves is atomic - NOT literally true (UserRx::flush and poll_read take the lock "
+    "several times per call) and not proved; validated on every run by the two-thread components rxconc / txconc: reader / writer "
+    "thread against a dispatcher thread, both really parked on their wakers, tiny buffers so that they park constantly; a state with "
+    "both parked and no wake-up pending (decided under one mutex) or a byte lost / out of place is a disagreement",
     "safety half only: eventual delivery and the silence bound (liveness clauses of C02) are not covered",
     "the promptness clauses need a writable transport, an open peer window and congestion window, no recovery / RTO "
     "back-off in progress (guards inside c02_prompt)",
@@ -290,3 +293,5 @@ ALL_PREDS = ["c02_parked_ok", "c02_write_wakes", "c02_drop_writer_wakes", "c02_s
              "c02_eof_wakes", "c02_timer_ok_g", "c02_rto_armed", "c02_no_silent_stall", "c02_prompt", "c02_zero_window_waker"]
 COMPONENTS = [_comp("+".join(ALL_PREDS), "vsock", gen)]
 COMPONENTS[0]["corpus"] = ["vsock", "vsock_eof", "vsock_prompt", "vsock_rto", "vsock_shutdown"]
+# wake-ups under TRUE concurrency: the wake-up theorems assume atomic methods; two OS threads, really parked on their wakers
+COMPONENTS += [concgen.component_rx(), concgen.component_tx()]
